@@ -428,6 +428,7 @@ def apply_model(sym, n, f, vals, mut_idx, st):
             s.n += 1
             t = ("mcall", p, (vals[0],), s.n)
             s.effects = s.effects + (("call", p, (vals[0],), s.n),)
+            sym.before.setdefault(t, set()).add(cur[2][0])      # (the entries come from the underlying iterator; `map` keeps their number and order)
             s = sym.write_place(s, pl, ("call", cur[1], (("after", t, 0), cur[2][1])))
             out = []
             for s2, is_some in fork_is(sym, s, t, "Some"):
